@@ -124,6 +124,24 @@ func genFaults(c *Ctx, kinds []string) {
 			faultSweep(c, "SPEC "+p, t, kinds, true)
 		}
 	}
+	// provider-internal failures after a successful Open (malformed / truncated JSON element) and iterator sources
+	// that hold a resource while iterating, also across several materialisations of one stream value
+	for _, p := range []string{"lc 2 jsonbad 0 0", "jsonbad 0 1", "concat 2 jsonbad 0 0 lc 3 src 1 5", "zip 2 jsonbad 0 0 jsonarr 1 7,8,9,10"} {
+		for _, t := range terms {
+			faultSweep(c, "SPEC "+p, t, kinds, true)
+		}
+	}
+	for _, p := range []string{"lc 1 fromiterp 0 1,2,3", "merge 2 fromiterp 0 1,3 fromiterp 1 2,4", "concat 2 fromiterp 0 1,2 lc 3 fromiterp 1 3"} {
+		for _, t := range terms {
+			faultSweep(c, "SPEC "+p, t, kinds, true)
+		}
+		ends := []string{"collect all nofault", "collect take:1 nofault", "user all err@2", "collect all cancel@2", "user all perr@1"}
+		for _, e1 := range ends {
+			for _, e2 := range ends {
+				c.Case(true, "SPEC "+strings.Join([]string{p, e1, e2, "collect take:1 nofault"}, " || "))
+			}
+		}
+	}
 	n := c.Pick(250, 4000)
 	for i := 0; i < n; i++ {
 		g := &pgen{rng: c.Rng, srcMax: 5}
